@@ -287,6 +287,27 @@ def run(tape, scenario):
 
     async def main(loop):
         await ec.connect()
+        if not two and tape.chance("c30/first-start-fails-then-another-layout", 10):
+            # the first start of the group fails before any cycle (a terminal has no FMMU
+            # to spare: other users hold them all); the application switches that terminal
+            # to direct addressing - another frame layout - and starts the group again
+            cand = [k for k in sorted(groups[0].used) if specs[k]["use_fmmu"]
+                    and not specs[k].get("aero")]
+            if cand:
+                k = tape.pick("c30/terminal-without-free-fmmu", cand)
+                terms[k].fmmu_used = [0x7f000000 + i for i in range(len(terms[k].fmmu_used))]
+                t0 = groups[0].sg.start()
+                await asyncio.wait([t0], timeout=1.0)
+                if t0.done() and not t0.cancelled() and t0.exception() is not None:
+                    world.count("c30/first-start-failed-without-a-free-fmmu")
+                else:
+                    t0.cancel()
+                    await asyncio.wait([t0], timeout=1.0)
+                terms[k].fmmu_used = [None] * len(terms[k].fmmu_used)
+                terms[k].use_fmmu = False
+                specs[k]["use_fmmu"] = False
+                started[0] = False
+                groups[0].cycles, groups[0].snapshots = [], {}
         tasks = []
         for g in groups:
             tasks.append(g.sg.start())
